@@ -43,8 +43,12 @@ Faults == {"unk", "failh", "type", "range", "nofunc", "div0", "silent_unk", "sil
            \* one faulty statement whose syntax errors are reported on two lines (the first one leads)
            "syn_cascade",
            \* the input ends within an unterminated string of the failing tag: some line of the tag is named
-           "eof_unk", "eof_div0", "eof_syn"}
-IsSyntax(f) == f \in {"syn_operand", "syn_let", "syn_paren", "syn_overflow", "syn_call", "syn_for", "eof_syn", "syn_cascade"}
+           "eof_unk", "eof_div0", "eof_syn",
+           \* # line comments stand between the tag's opening and the failing statement (or between two statements
+           \* of the tag): a line of the tag is named, and it is the SAME line as when the comments are blank lines
+           "cm_unk", "cm_two", "cm_mid", "cm_syn", "cm_emit", "cm_fn", "cm_same"}
+IsCm(f) == f \in {"cm_unk", "cm_two", "cm_mid", "cm_syn", "cm_emit", "cm_fn", "cm_same"}
+IsSyntax(f) == f \in {"syn_operand", "syn_let", "syn_paren", "syn_overflow", "syn_call", "syn_for", "eof_syn", "syn_cascade", "cm_syn"}
 IsEof(f) == f \in {"eof_unk", "eof_div0", "eof_syn"}
 Fault(f) ==
   CASE f = "unk"    -> Emit(Id("nope"))
@@ -73,6 +77,14 @@ Fault(f) ==
     [] f = "ml_strfirst"  -> RawTag(<<"<%", " ", "QUOT", "a", "NL", "b", "QUOT", " ", "+", " ", "nope", " ", "%>">>)
     [] f = "syn_cascade"  -> RawTag(<<"<%", " ", "if", " ", "(", "x", " ", "==", " ", ")", " ", "{", " ", "%>", "NL", "a", "NL", "NL", "NL",
                                      "<%", " ", "}", " ", "else", " ", "{", " ", "%>", "b", "<%", " ", "}", " ", "%>">>)
+    [] f = "cm_unk"       -> RawTag(<<"<%", "NL", "HASH", " ", "c", "NL", "nope", " ", "+", " ", "1", " ", "%>">>)
+    [] f = "cm_two"       -> RawTag(<<"<%", " ", "HASH", "c", "NL", " ", "HASH", " ", "d", " ", "e", "NL", "let", " ", "l", " ", "=", " ", "nope", " ", "%>">>)
+    [] f = "cm_mid"       -> RawTag(<<"<%", " ", "let", " ", "l", " ", "=", " ", "1", "NL", "HASH", " ", "c", "NL", "l", " ", "/", " ", "0", " ", "%>">>)
+    [] f = "cm_syn"       -> RawTag(<<"<%", "NL", "HASH", " ", "c", "NL", "HASH", " ", "d", "NL", "1", " ", "+", " ", ")", " ", "%>">>)
+    [] f = "cm_emit"      -> RawTag(<<"<%=", "NL", "HASH", " ", "c", "NL", "nope", " ", "%>">>)
+    [] f = "cm_fn"        -> RawTag(<<"<%", " ", "let", " ", "cf", " ", "=", " ", "fn", "(", ")", " ", "{", "NL", "HASH", " ", "c", "NL", "return", " ", "nope", " ", "+", " ", "1", "NL", "}", " ", "%>",
+                                     "NL", "<%=", " ", "cf", "(", ")", " ", "%>">>)
+    [] f = "cm_same"      -> RawTag(<<"<%", " ", "let", " ", "l", " ", "=", " ", "1", " ", "HASH", " ", "c", "NL", "l", " ", "/", " ", "0", " ", "%>">>)
     [] f = "eof_unk"      -> RawTag(<<"<%=", " ", "nope", " ", "+", " ", "QUOT", "a", "NL", "b">>)
     [] f = "eof_div0"     -> RawTag(<<"<%=", " ", "1", "/", "0", " ", "+", " ", "BQ", "a", "NL", "b">>)
     [] f = "eof_syn"      -> RawTag(<<"<%=", " ", "nosuch", "(", "QUOT", "a", "NL", "b">>)
@@ -119,7 +131,8 @@ AddItem == stage = "pre" /\ Len(pre) < MaxPre /\ \E n \in ItemNames : pre' = App
 Pick == /\ stage = "pre" /\ \E f \in Faults, pl \in Places :
               /\ (IsSyntax(f) /\ pl = "partial" => FALSE)       \* (a partial with a syntax error: inner parse error, kept out)
               /\ (pl \in ExprPlaces => f \in ExprFaults)
-              /\ (IsEof(f) \/ f = "syn_cascade" => pl = "top")                        \* everything after it is swallowed by the string
+              /\ (IsEof(f) \/ f = "syn_cascade" \/ f = "cm_fn" => pl = "top")
+              /\ (IsCm(f) => pl \in {"top", "if", "for", "fn", "blk", "afterblock"})                        \* everything after it is swallowed by the string
               /\ fault' = f /\ place' = pl
         /\ stage' = "done" /\ UNCHANGED pre
 Spec == Init /\ [][AddItem \/ Pick]_vars
@@ -130,7 +143,15 @@ Prog == PreStmts \o P.rest
 CountNL(ts) == Cardinality({i \in 1..Len(ts) : ts[i] = "NL"})
 Line == 1 + CountNL(Unparse(PreStmts)) + CountNL(P.lead)
 \* the last line of the failing tag when the input ends inside it
-MaxLine == IF IsEof(fault) THEN 1 + CountNL(Unparse(Prog)) ELSE Line
+MaxLine == IF IsEof(fault) THEN 1 + CountNL(Unparse(Prog))
+           ELSE IF IsCm(fault) THEN Line + CountNL(Fault(fault).toks)
+           ELSE Line
+\* the same source with the text of every # comment removed (the line breaks stay)
+RECURSIVE StripComments(_, _)
+StripComments(ts, inc) == IF ts = <<>> THEN <<>>
+                          ELSE IF Head(ts) = "NL" THEN <<"NL">> \o StripComments(Tail(ts), FALSE)
+                          ELSE IF inc \/ Head(ts) = "HASH" THEN StripComments(Tail(ts), TRUE)
+                          ELSE <<Head(ts)>> \o StripComments(Tail(ts), FALSE)
 Res == Run(Prog, WithHelpers(EmptyScope), P.parts, "")
 
 ErrTheorem == stage = "done" => Res.k = "err"
@@ -142,7 +163,7 @@ ShiftTheorem == stage = "done" =>
 RECURSIVE JoinNames(_)
 JoinNames(ns) == IF ns = <<>> THEN "" ELSE Head(ns) \o "," \o JoinNames(Tail(ns))
 EmitCase == stage # "done" \/
-            PrintT("CASE " \o ToJson([gen |-> "GenLines", src |-> Unparse(Prog), parts |-> [x \in DOMAIN P.parts |-> Unparse(P.parts[x])],
+            PrintT("CASE " \o ToJson([gen |-> "GenLines", src |-> Unparse(Prog), twin |-> IF IsCm(fault) THEN StripComments(Unparse(Prog), FALSE) ELSE <<>>, parts |-> [x \in DOMAIN P.parts |-> Unparse(P.parts[x])],
                                        line |-> Line, maxline |-> MaxLine, fault |-> fault, place |-> place, wraps |-> (fault \in {"failh", "silent_failh", "ml_failh"}),
                                        shape |-> fault \o ":" \o place \o ":" \o JoinNames(pre)]))
 =============================================================================
